@@ -1,5 +1,9 @@
+#[cfg(not(feature = "uflow_verif"))]
 use std::net;
+#[cfg(not(feature = "uflow_verif"))]
 use std::time;
+#[cfg(feature = "uflow_verif")]
+use crate::verif::{net, time, rand};
 
 use crate::CHANNEL_COUNT;
 use crate::EndpointConfig;
